@@ -14,7 +14,7 @@ Phases
      (libFuzzer "run these files" mode, restarted after a crashing seed) - complete and
      seed-independent.
   2. mutation: per target `-runs=N -seed=VERIF_SEED` from the seeds that survived phase 1
-     (quick N=20k for the PSK targets and N/8 for the certificate targets; thorough N=1.5M); after a
+     (quick N=20k for the PSK targets and N/8 for the certificate targets; thorough N=1M); after a
      crash the key is recorded, the artifact kept, and the remaining budget is re-run with the
      next seed (bounded number of restarts).
   3. thorough only: a bounded number of files of the resulting corpora is replayed under valgrind
@@ -144,6 +144,12 @@ def crash_keys(target, text):
     return res
 
 
+def harness_only(keys):
+    """A process that died without a sanitizer / oracle report and without any library frame on the stack
+    (key crash:<what>:?) is a failure of the harness or of the machine (OOM kill, signal), not a verdict."""
+    return bool(keys) and all(k.startswith("crash:") and k.endswith(":?") for k, _ in keys)
+
+
 def hang_confirmed(binary, target, path, cwd):
     """libFuzzer's -timeout is wall-clock and so load-sensitive (other checks share the machine). A
     timeout only counts when re-running the input alone burns more than 10 s of *CPU* time."""
@@ -260,7 +266,7 @@ def run_files(binary, target, files, tr, cwd, want_samples=0, origin=None, tuple
                 if cur is not None:
                     pairs.append((cur, m.group(1)))
                     cur = None
-        tr.execs += len(results)
+        tr.execs += len(pairs)      # one per file (libFuzzer re-executes a unit when it suspects a leak: not counted twice)
         for f, r in pairs:
             if len(tr.samples) < want_samples:
                 src = (origin or {}).get(f, f)
@@ -282,8 +288,9 @@ def run_files(binary, target, files, tr, cwd, want_samples=0, origin=None, tuple
                 remaining = remaining[i + 1:]
                 continue
             break
-        if not keys:
+        if not keys or harness_only(keys):
             tr.incon.append("%s: replay of %s exited with status %s without a report: %s" % (target, bad, rc, text[-600:]))
+            keys = []
         for k, ex in keys:
             tr.viol.append((k, ex, (origin or {}).get(bad, bad)))
         tr.seed_crashes += 1
@@ -367,7 +374,7 @@ def run_target(binary, target, budget, seed, outroot, max_restarts, watchdog):
             remaining -= max(done, 1)
             k += 1
             continue
-        if not keys:
+        if not keys or harness_only(keys):
             tr.incon.append("%s: fuzz process exited with status %s without a report: %s" % (target, rc, text[-600:]))
             break
         for key, ex in keys:
@@ -599,7 +606,7 @@ def run(ctx):
         targets = [t for t in targets if t[0] in only.split(",")]
     # expensive targets first so the pool drains evenly
     targets.sort(key=lambda t: -t[1])
-    budget = int(os.environ.get("C08_RUNS") or (1500000 if ctx.thorough else 20000))
+    budget = int(os.environ.get("C08_RUNS") or (1000000 if ctx.thorough else 20000))
     max_restarts = int(os.environ.get("C08_RESTARTS") or (60 if ctx.thorough else 8))
     watchdog = 6 * 3600 if ctx.thorough else 900   # safety net only: the budget is -runs
     outroot = os.path.join(vflib.SCRATCH, ".out", "C08-%d" % os.getpid())
